@@ -37,7 +37,7 @@ STUBS = ["OS model (termios / tty / fcntl / signal / os / select / time / thread
          "asynchronous delivery of SIGINT between two bytecodes of curtsies' own __enter__/__exit__ is outside (the model "
          "delivers it inside a blocked select, where a process actually waits)"]
 
-KINDS = ["input", "input_in_input", "fullscreen", "cursoraware", "fullscreen_in_input", "cbreak", "cbreak_termmode", "nonblocking", "termmode"]
+KINDS = ["input", "input_reused", "input_in_input", "fullscreen", "cursoraware", "fullscreen_in_input", "cbreak", "cbreak_termmode", "nonblocking", "termmode"]
 BODY_OPS = ["send0", "send_key", "trigger", "ts_trigger", "sigint", "render"]
 CASES = []
 ENV = {}
@@ -60,7 +60,7 @@ WAKEUPS = [-1, 7]
 
 
 def _bodies(kind):
-    has_input = kind in ("input", "input_in_input", "fullscreen_in_input")
+    has_input = kind in ("input", "input_reused", "input_in_input", "fullscreen_in_input")
     has_win = kind in ("fullscreen", "cursoraware", "fullscreen_in_input")
     ops = []
     if has_input:
@@ -158,6 +158,7 @@ def run_scenario(kind, body, opts, init, crash, repeat=1):
         win_in = In(0)
         problems = []
         for rep in range(repeat):
+            ENV["toggled"] = False
             before = m.snapshot()
             main_before = [list(r) for r in term.grid]
             m.calls = 0
@@ -223,6 +224,18 @@ def run_scenario(kind, body, opts, init, crash, repeat=1):
                 if kind == "input":
                     with mk_input() as inp:
                         do_body(inp, None)
+                elif kind == "input_reused":
+                    # the SAME Input object is used for two sessions; somebody changes the tty settings in between
+                    # (each session must restore what was there when IT was entered)
+                    if rep == 0:
+                        ENV["reused"] = mk_input()
+                    inp = ENV["reused"]
+                    with inp:
+                        do_body(inp, None)
+                    a = m.attrs[0]
+                    a[3] ^= 0o10              # toggle ECHO between the sessions
+                    a[6][0] = b"\x03" if a[6][0] != b"\x03" else b"\x07"
+                    ENV["toggled"] = True
                 elif kind == "input_in_input":
                     with mk_input() as outer:
                         with mk_input() as inp:
@@ -271,6 +284,11 @@ def run_scenario(kind, body, opts, init, crash, repeat=1):
             if m.crash_skipped:
                 return None          # the chosen call belongs to a context manager's own enter/exit step: not a case
             after = m.snapshot()
+            if kind == "input_reused" and ENV.pop("toggled", False):
+                # undo the deliberate change made after the session, so that `after` is what the session left
+                aa = after["attrs"]
+                aa[3] ^= 0o10
+                aa[6][0] = b"\x03" if aa[6][0] != b"\x03" else b"\x07"
             tag = "" if left_by is None else " (left through %s)" % left_by
             if after["attrs"] != before["attrs"]:
                 problems.append("tty attributes not restored%s: %r -> %r" % (tag, before["attrs"][3], after["attrs"][3]))
@@ -308,7 +326,7 @@ def scenario(s1: int, s2: int) -> bool:
     from crosshair.tracers import NoTracing
     with NoTracing():
         # the scenario is fully realised: the real code runs on concrete values against the models
-        res = run_scenario(P["kind"], body, opts, init, crash, repeat=3 if crash is None else 1)
+        res = run_scenario(P["kind"], body, opts, init, crash, repeat=3 if (crash is None or P["kind"] == "input_reused") else 1)
         if res is not None and H.EXCL:
             res = _filter_known(res)
     return verdict(res is None, crash is not None and crash[0] >= 2)
@@ -482,7 +500,7 @@ def concrete(fn, params, args):
     else:
         body, opts, init, crash = H.pick_concrete(_cases(), args[0], args[1])
     ENV["orig_cbreak"] = cw.Cbreak
-    res = run_scenario(params["kind"], body, opts, init, crash, repeat=3 if crash is None else 1)
+    res = run_scenario(params["kind"], body, opts, init, crash, repeat=3 if (crash is None or params["kind"] == "input_reused") else 1)
     real = "n/a"
     if crash is None:
         real = real_replay(params["kind"], body, opts, init)
